@@ -17,6 +17,8 @@ database:
       context  [,][ ][at ]D+ T  with D+ one or two arbitrary digits and T a documented terminator, followed
       by <= 1 arbitrary character, POST_SHORT_CITATION_REGEX / POST_FULL_CITATION_REGEX capture exactly the
       written pin cite; the symbolic matcher is validated against the real `regex` engine on every path.
+  (8) year / court contexts (E3): on  [pin] ' (' [court ' '] YYYY ')' [tail]  POST_FULL_CITATION_REGEX captures exactly
+      the written pin cite, court and year and ends at the parenthesis;
   (6) full-span start = extracted plaintiff; (7) the full span of a full case / law / journal citation covers
       its parenthetical and the closing parenthesis (E2 on add_post_citation / add_law_metadata /
       add_journal_metadata, with the "what follows the group inside the match" fact read off the pattern AST).
@@ -245,6 +247,102 @@ class HCtx(common.Harness):
         return fs
 
 
+# ---------------------------------------------------------------- (8) year / court contexts
+YPINS = ["", ", D", ", DD", " at D"]
+YCOURTS = [0, 2, 3]
+YTAILS = ["", ".", "X"]
+
+
+class HCtxYear(common.Harness):
+    """POST_FULL_CITATION_REGEX on the documented year parenthesis  [pin] ' (' [court ' '] YYYY ')' [tail]:
+    the pin cite, the court and the year are arbitrary (digits / non-bracket non-blank non-digit characters),
+    the capture groups must be exactly the written components and the match must end at the parenthesis."""
+
+    def __init__(self, params):
+        super().__init__(params)
+        import regex
+
+        import eyecite.regexes as RX
+
+        self.pat = "^(?:%s)" % RX.POST_FULL_CITATION_REGEX
+        self.matcher = symre.Matcher(self.pat, re.X)
+        self.real = regex.compile(self.pat, regex.X)
+
+    def run(self):
+        eng = self.eng
+        pin = YPINS[eng.choose([z3.Int("pin") == k for k in range(len(YPINS))])]
+        nc = YCOURTS[eng.choose([z3.Int("court") == k for k in range(len(YCOURTS))])]
+        tail = YTAILS[eng.choose([z3.Int("tail") == k for k in range(len(YTAILS))])]
+        br = eng.choose([z3.Int("bracket") == k for k in range(2)])
+        dig = rex.table(r"\d", 0)
+        spc = rex.table(r"\s", 0)
+        chars, self.vars = [], []
+
+        def digit(tag):
+            d = z3.Int(tag)
+            eng.add(d >= 48, d <= 57)
+            self.vars.append(d)
+            return d
+
+        for ch in pin:
+            chars.append(digit(f"p{len(chars)}") if ch == "D" else ord(ch))
+        self.pin_len = len(chars)
+        chars += [32, ord("([")[br] if False else ord("(" if br == 0 else "[")]
+        c0 = len(chars)
+        for i in range(nc):
+            x = z3.Int(f"c{i}")
+            eng.add(x >= 33, x <= 0x10FFFF, *[x != ord(ch) for ch in "()[];"])
+            eng.add(z3.Not(z3.Or(*[z3.And(x >= a, x <= b) for a, b in dig])), z3.Not(z3.Or(*[z3.And(x >= a, x <= b) for a, b in spc])))
+            self.vars.append(x)
+            chars.append(x)
+        self.court = (c0, c0 + nc) if nc else None
+        if nc:
+            chars.append(32)
+        y0 = len(chars)
+        chars += [digit(f"y{i}") for i in range(4)]
+        self.year = (y0, y0 + 4)
+        chars.append(ord(")" if br == 0 else "]"))
+        self.end = len(chars)
+        for ch in tail:
+            if ch == "X":
+                x = z3.Int("t0")
+                # anything that does not open a parenthetical
+                eng.add(x >= 0, x <= 0x10FFFF, x != 40, x != 32)
+                self.vars.append(x)
+                chars.append(x)
+            else:
+                chars.append(ord(ch))
+        self.s = symre.CStr(chars)
+        self.cfg = (pin, nc, tail, br)
+        return self.matcher.match(self.s)
+
+    def witness(self, m):
+        return {"context": self.s.concrete(m), "pin": self.cfg[0], "court_chars": self.cfg[1], "tail": self.cfg[2], "want": {"year": list(self.year), "court": list(self.court) if self.court else None, "pin_cite": [0, self.pin_len] if self.pin_len else None, "end": self.end}}
+
+    def describe(self, kind, out):
+        m = self.eng.path_model()
+        return self.witness(m) if m is not None else {}
+
+    def judge(self, kind, out):
+        if kind == "exc":
+            return [self.check("C01:yctx:no_exception:" + type(out).__name__, False, self.witness)]
+        want_pin = (0, self.pin_len) if self.pin_len else None
+        got = None if out is None else {g: out.span(g) for g in ("pin_cite", "court", "year", "extra", "parenthetical")}
+        for g in ("pin_cite", "court", "year", "extra", "parenthetical"):
+            if got and (got[g] == (-1, -1) or got[g][0] == got[g][1]):
+                got[g] = None  # an empty capture says the same as no capture (the code tests truthiness)
+        ok = got is not None and got["year"] == self.year and got["court"] == self.court and got["pin_cite"] == want_pin and got["extra"] is None and got["parenthetical"] is None and out.e == self.end
+        fs = [self.check("C01:yctx:year_court_and_pin_cite_captured_are_the_written_ones", z3.BoolVal(bool(ok)), self.witness)]
+        m = self.eng.path_model()
+        agree = True
+        if m is not None:
+            txt = self.s.concrete(m)
+            r = self.real.match(txt)
+            agree = (r is None) == (out is None) and (r is None or (r.span() == (out.s, out.e) and all(r.span(g) == out.span(g) for g in ("year", "court", "pin_cite"))))
+        fs.append(self.check("C01:yctx:symbolic_matcher_agrees_with_regex_engine", z3.BoolVal(agree), self.witness))
+        return fs
+
+
 class HWire(common.Harness):
     def __init__(self, params):
         super().__init__(params)
@@ -284,7 +382,7 @@ class HWire(common.Harness):
 
 
 def make(params):
-    return HCtx(params) if params["part"] == "ctx" else HWire(params)
+    return {"ctx": HCtx, "yctx": HCtxYear, "wire": HWire}[params["part"]](params)
 
 
 def short_derivation():
@@ -316,7 +414,7 @@ def check(rep):
     rnd = random.Random(common.seed())
     idx = list(range(len(exts)))
     sample = idx  # every extractor in both tiers: (1) is a statement per reporter string across extractors
-    rep.bounds.append(f"(1)(2): {len(sample)} of {len(exts)} citation extractors (all); volumes [1-9]\\d* and pages \\d+ of any length; neighbours any non-alphanumeric character or the text ends; (5): contexts [,][ ][at ]D{{1,2}}T plus <= 1 arbitrary character")
+    rep.bounds.append(f"(1)(2): {len(sample)} of {len(exts)} citation extractors (all); volumes [1-9]\\d* and pages \\d+ of any length; neighbours any non-alphanumeric character or the text ends; (5): contexts [,][ ][at ]D{{1,2}}T plus <= 1 arbitrary character; (8): year contexts [, D{{1,2}}| at D] (|[ [court of 2..3 arbitrary characters] YYYY )|] [one arbitrary character]")
     rep.outside += ["captures on longer trailing contexts, party names, court lookup, parentheticals, full-span ends", "'exactly one citation per written citation' under overlapping patterns", "reporter strings whose database entry has its own 'regexes' (custom templates with restricted volumes/pages) are not in (1)/(2)"]
     res, err = common.pmap(job, sample, timeout=3000, chunk=8)
     if err:
@@ -406,6 +504,13 @@ def check(rep):
         n_ok = sum(v for k, v in agg["verdicts"].items() if k.endswith(":valid"))
         rep.oblige(n_ok)
         rep.oblige(n_ob - n_ok, ok=False)
+    agg = common.explore_split("vf.harness.c01", {"part": "yctx"}, depth=4)
+    rep.merge_explore("contexts_year_court", agg)
+    findings += [("yctx", f) for f in agg["findings"]]
+    n_ob = sum(agg["verdicts"].values())
+    n_ok = sum(v for k, v in agg["verdicts"].items() if k.endswith(":valid"))
+    rep.oblige(n_ok)
+    rep.oblige(n_ob - n_ok, ok=False)
     agg = common.explore_split("vf.harness.c01", {"part": "wire"}, depth=3, procs=1)
     rep.merge_explore("class_wiring", agg)
     findings += [("wire", f) for f in agg["findings"]]
@@ -431,6 +536,14 @@ def check(rep):
         rep.replays += 1
         if name == "wire":
             rep.violation(f"_extract_full_citation with edition sources {w}: wrong class or lost groups", {"kind": "wire", "witness": w})
+            continue
+        if name == "yctx" and not f["clause"].endswith("agrees_with_regex_engine"):
+            got = yctx_real(w["context"])
+            if got != w["want"]:
+                rep.violation(f"POST_FULL_CITATION_REGEX on {w['context']!r} captures {got}, written {w['want']}", {"kind": "yctx", "context": w["context"], "want": w["want"]})
+            else:
+                rep.spurious += 1
+                rep.inconc(f"year-context model {w['context']!r} did not reproduce")
             continue
         if f["clause"].endswith("agrees_with_regex_engine"):
             rep.inconc(f"symbolic matcher disagrees with the regex engine on {w['context']!r} ({name}): harness error")
@@ -458,6 +571,21 @@ def check(rep):
     )
 
 
+def yctx_real(text):
+    """what the real engine captures on a year-parenthesis context, in the shape of HCtxYear's `want`."""
+    import regex
+
+    import eyecite.regexes as RX
+
+    r = regex.match("^(?:%s)" % RX.POST_FULL_CITATION_REGEX, text, flags=regex.X)
+    if r is None:
+        return None
+    sp_ = lambda g: None if r.span(g) == (-1, -1) or r.span(g)[0] == r.span(g)[1] else list(r.span(g))
+    if sp_("extra") or sp_("parenthetical"):
+        return {"unexpected": {"extra": r["extra"], "parenthetical": r["parenthetical"]}}
+    return {"year": sp_("year"), "court": sp_("court"), "pin_cite": sp_("pin_cite"), "end": r.end()}
+
+
 def replay_file(path):
     import json
 
@@ -466,6 +594,10 @@ def replay_file(path):
         ok = re.compile(r["regex"], r["flags"]).search(r["text"]) is not None
         print(ok)
         return 0 if ok else 1
+    if r["kind"] == "yctx":
+        got = yctx_real(r["context"])
+        print(got, r["want"])
+        return 0 if got == r["want"] else 1
     if r["kind"] == "ctx":
         import regex
 
